@@ -146,6 +146,18 @@ class Bindings:
                 owner = g['owner']
         if owner is None:
             return set(), True
+        if not self.b.get((owner, pname)) and (owner, pname) not in self.external:
+            # the parameter belongs to a new helper function whose call was inlined (no instantiation site is left to bind it): a body
+            # defined inside the helper (an async block it returns) now belongs to the function the helper was inlined into - its
+            # parameter of the same name is the one meant; failing that the instantiation is unknown, i.e. possibly the crate's user
+            of = self.facts.fn(owner)
+            if of is not None and getattr(of, 'is_helper', False):
+                host = self.facts.fn(fn.root) if getattr(fn, 'root', None) else None
+                if host is not None and host.name != owner:
+                    for g in host.generics:
+                        if g['name'] == pname:
+                            return self._res((g['owner'], pname), set())
+                return set(), True
         return self._res((owner, pname), set())
 
     def _res(self, key, seen):
@@ -650,6 +662,8 @@ class Proto:
     def _tuple_key(self, fn, pl):
         """For a place `x.i` on a tuple-typed local x: the V key of that field."""
         p = [x for x in pl['p'] if x['k'] != 'deref']
+        if len(p) == 2 and p[0]['k'] == 'downcast' and p[1]['k'] == 'field' and len(pl['p']) == 2 and 1 <= p[1].get('i', 0) < TUPLE_MAX and pl['l'] not in _untracked():
+            return pl['l'] + TUPLE * (p[1]['i'] + 1)      # field i >= 1 of a multi-field enum variant held in a local
         if len(p) == 1 and p[0]['k'] == 'field' and len(pl['p']) == 1 and clean_ty(fn.local_ty(pl['l'])).startswith('(') and p[0].get('i', 0) < TUPLE_MAX:
             if pl['l'] not in _untracked():
                 return pl['l'] + TUPLE * (p[0].get('i', 0) + 1)
@@ -777,14 +791,18 @@ class Proto:
             self.events[('guard_new', self._evn(fn), '')].add(st.T)
         val = self._rvalue_val(fn, st, rv, bb, i, record)
         payload = None
-        if rv['k'] == 'agg' and rv['ak'] == 'adt' and len(rv.get('ops', [])) == 1:
+        if rv['k'] == 'agg' and rv['ak'] == 'adt' and 1 <= len(rv.get('ops', [])) <= TUPLE_MAX:
             payload = self._operand_val(fn, st, rv['ops'][0])
         elif rv['k'] == 'use' and rv['op']['k'] in ('copy', 'move') and not rv['op']['pl']['p']:
             payload = vget(st, rv['op']['pl']['l'] + PAYLOAD)
         fields = None
         if rv['k'] == 'agg' and rv['ak'] == 'tuple' and 0 < len(rv.get('ops', [])) <= TUPLE_MAX:
             fields = [self._operand_val(fn, st, o_) for o_ in rv['ops']]
-        elif rv['k'] == 'use' and rv['op']['k'] in ('copy', 'move') and not rv['op']['pl']['p'] and clean_ty(fn.local_ty(rv['op']['pl']['l'])).startswith('('):
+        elif rv['k'] == 'agg' and rv['ak'] == 'adt' and 1 < len(rv.get('ops', [])) <= TUPLE_MAX and rv.get('adt') != QS:
+            # an enum variant / struct with several fields (`Step::Stop { draining, poll }`): its components are tracked like a tuple's
+            fields = [self._operand_val(fn, st, o_) for o_ in rv['ops']]
+        elif rv['k'] == 'use' and rv['op']['k'] in ('copy', 'move') and not rv['op']['pl']['p'] and \
+                (clean_ty(fn.local_ty(rv['op']['pl']['l'])).startswith('(') or any(vget(st, rv['op']['pl']['l'] + TUPLE * (i_ + 1)) is not None for i_ in range(TUPLE_MAX))):
             fields = [vget(st, rv['op']['pl']['l'] + TUPLE * (i_ + 1)) for i_ in range(TUPLE_MAX)]
         st = vset(st, l, val)
         if payload is not None and payload[0] in ('enum', 'bool') and l not in _untracked():
